@@ -192,13 +192,17 @@ KANI_UNITS["C34"] = dict(
     prop="C34", crate="varpulis-cluster",
     appends=[("crates/varpulis-cluster/src/routing.rs", "__vpv_c34", "contracts/kani/c34.rs")],
     grade="K-bounded(ASCII strings of length <= 2 (quick) / <= 3 (thorough); <= 2 routes x <= 2 patterns)", level="other", timeout=3600, harness_timeout=1200,
-    functions=["varpulis-cluster/src/routing.rs: event_type_matches, find_target_pipeline"],
-    explanation=("PARTIAL, BOUNDED (route matching only). event_type_matches agrees with a byte-level specification ('*' matches all, 'p*' is a prefix test, otherwise equality) for all "
-                 "ASCII strings up to the stated length; find_target_pipeline returns the target of the FIRST matching route in declaration order (patterns of a route in order), "
-                 "else the group's first pipeline, else None. NOT decided: ReplicaGroup::select_replica — it contains a tracing::warn!, and every function reaching tracing's "
-                 "thread-local dispatcher crashes kani-compiler 0.68; so neither 'round-robin loads differ by at most one' nor hash-key stickiness is checked, and single-vs-batch key "
-                 "construction lives in async coordinator code."),
-    assumptions=["group assembled with empty HashMaps (no insertion); Instant by transmute (layout assumption)"],
+    native_grade="bounded(native exhaustive enumeration: 1..=6 replicas; round-robin: 2104 counter starts x every run of <= 40 injections; hash-key: 64 key values x 3 interleaved rounds)",
+    functions=["varpulis-cluster/src/routing.rs: event_type_matches, find_target_pipeline (Kani)", "varpulis-cluster/src/pipeline_group.rs: ReplicaGroup::select_replica (native enumeration)"],
+    explanation=("PARTIAL, BOUNDED. (1) Kani: event_type_matches agrees with a byte-level specification ('*' matches all, 'p*' is a prefix test, otherwise equality) for all ASCII "
+                 "strings up to the stated length; find_target_pipeline returns the target of the FIRST matching route in declaration order (patterns of a route in order), else the "
+                 "group's first pipeline, else None. (2) ReplicaGroup::select_replica contains a tracing::warn!, and every function reaching tracing's thread-local dispatcher crashes "
+                 "kani-compiler 0.68, so it is covered by a BOUNDED STAND-IN run natively against the real function: round-robin — over every run of up to 40 consecutive injections, "
+                 "for 1..=6 replicas and 2104 start values of the counter, replica loads differ by at most one; hash-key — equal key values always select the same existing replica and a "
+                 "missing key one fixed replica. NOT decided: that single and batch injection build the same key (async coordinator code: inject_event / inject_batch), counters "
+                 "beyond the enumerated starts (the counter wraps at 2^64)."),
+    assumptions=["group assembled with empty HashMaps (no insertion); Instant by transmute (layout assumption)",
+                 "select_replica: bounded native enumeration only — nothing is proved for it"],
 )
 
 KANI_UNITS["C43"] = dict(
@@ -426,7 +430,33 @@ VERUS_UNITS["C31"] = dict(prop="C31", witness=c31_witness, template="contracts/v
                  "PathBuf::from(&str) carries no contract (the proof holds for whatever PathBuf it returns)"])
 
 
-VERUS_UNITS["C12"] = dict(prop="C12", template="contracts/verus/c12.rs.tmpl", gen_name="c12", ledger="obligations/c12.json", level="other",
+def windows_witness(scratch, cls):
+    """bounded stand-in / witness finder for C12, C13: the real plain windows of varpulis-runtime against reference models (witness/windows)"""
+    import shutil
+    wdir = os.path.join(scratch, "witness-windows")
+    shutil.rmtree(wdir, ignore_errors=True)
+    shutil.copytree(os.path.join(VERIF, "witness/windows"), wdir)
+    cp = os.path.join(wdir, "Cargo.toml")
+    src = open(cp).read().replace("@REPO@", vpv.REPO.rstrip("/"))
+    open(cp, "w").write(src)
+    lock = os.path.join(vpv.REPO, "Cargo.lock")
+    if os.path.exists(lock):
+        shutil.copy(lock, os.path.join(wdir, "Cargo.lock"))
+    tgt = os.path.join(scratch, "wit-target")
+    rc, out = vpv.sh(["cargo", "build", "--offline", "--release"], cwd=wdir, env={"CARGO_TARGET_DIR": tgt}, timeout=2400)
+    if rc != 0:
+        return dict(found=False, note="witness finder did not build: " + out[-400:])
+    rc, out = vpv.sh([os.path.join(tgt, "release/vpv-windows-witness"), cls], timeout=600)
+    m = re.search(r"^WITNESS (.*)$", out, re.M)
+    cmd = "copy /verif/witness/windows, replace @REPO@ by the repository path in Cargo.toml, cargo run --release -- " + cls
+    if m:
+        return dict(found=True, input=m.group(1), cmd=cmd)
+    if rc != 0 and "NO-WITNESS" not in out:
+        return dict(found=True, input="real code panicked: " + out[-600:], cmd=cmd)
+    return dict(found=False, note=out.strip()[-300:])
+
+
+VERUS_UNITS["C12"] = dict(prop="C12", witness=(lambda scratch: windows_witness(scratch, "C12")), template="contracts/verus/c12.rs.tmpl", gen_name="c12", ledger="obligations/c12.json", level="other",
     explanation=("PARTIAL: the plain count, tumbling and session windows (NOT the partitioned variants, which sit on hash maps keyed by strings, and not the engine glue that "
                  "routes events / watermarks to them). CountWindow::{new, add_shared, flush_shared, current_count}, TumblingWindow::{new, add_shared, flush_shared, advance_watermark}, "
                  "SessionWindow::{new, add_shared, flush_shared, check_expired, advance_watermark} (window.rs) and ColumnarBuffer::{new, with_capacity, push, take_all, len, is_empty} "
@@ -446,7 +476,7 @@ VERUS_UNITS["C12"] = dict(prop="C12", template="contracts/verus/c12.rs.tmpl", ge
                  "count >= 1 (CountWindow::new(0) would emit every event as a window of one) and duration > 0 (TumblingWindow::new precondition)"])
 
 
-VERUS_UNITS["C13"] = dict(prop="C13", template="contracts/verus/c13.rs.tmpl", gen_name="c13", ledger="obligations/c13.json", level="other",
+VERUS_UNITS["C13"] = dict(prop="C13", witness=(lambda scratch: windows_witness(scratch, "C13")), template="contracts/verus/c13.rs.tmpl", gen_name="c13", ledger="obligations/c13.json", level="other",
     explanation=("PARTIAL: the plain count-sliding and time-sliding windows (NOT the partitioned variants, which sit on hash maps, nor IncrementalSlidingWindow). "
                  "SlidingCountWindow::{new, add_shared, current_count} and SlidingWindow::{new, add_shared, advance_watermark} (window.rs) are extracted mechanically and verified by "
                  "Verus. Count-sliding: after every arrival the retained events are exactly the last min(n, N) events in arrival order; an emission happens EXACTLY when the window is "
